@@ -19,8 +19,11 @@ CLAIMS.update({
               'allowance — max-stale, only-if-cached, the stored stale-while-revalidate window — covers the staleness; saturating '
               'arithmetic), C01_age_conservative, C01_lifetime_conservative, C01_only_by_decision, and at history level C01_history_times '
               '(after EVERY sequential history from an empty store each stored entry carries as request/response instants the start/end of one '
-              'origin call of that history: the instants ages are measured from cannot be anything else). Unbounded in header values and '
-              'instants; the remaining history-level statement (which stored header fields an entry carries) is covered by the extracted monitor mon_C01 on the real transport each run.'),
+              'origin call of that history: the instants ages are measured from cannot be anything else) and C01_history (along EVERY sequential history from an empty store, '
+              'an exchange that answers without contacting the origin returns the synthesised 504 or the served form of an entry that (a) is exactly what StoreResponse files for the reply of one origin call of '
+              'the history — status, body, header block after Date repair and hop-by-hop removal, instants of that very call — or such an entry freshened by the 304s of other calls of the history '
+              '(inductive evidence Src; C01_history_sources, C01_history_store) and (b) is fresh by the specification or explicitly allowed to be stale at the instant the exchange started). '
+              'Unbounded in header values, instants, history length. The extracted monitor mon_C01 evaluates the same statement on the real transport each run.'),
         note=COMMON_NOTE + ' C01_local assumes of the stored entry what every entry written by the transport satisfies (parsable Date, status not 304).'),
     'C02': dict(
         text=('Theorems C02_local (answering from the store implies the specification\'s needs_validation is false: unqualified no-cache, '
@@ -59,7 +62,9 @@ CLAIMS.update({
         text=('Theorems C11_status_exactly_one, C11_legacy (X-From-Cache "1" exactly for HIT/STALE/REVALIDATED, removed otherwise), '
               'C11_served_fields / C11_swr_fields (one Age value = int(Seconds(age at this exchange)), replacing the origin\'s; HIT or STALE), '
               'C11_hit_is_fresh (HIT only while spec age < spec lifetime), C11_age_exact (the age is RFC 9111 section 4.2.3 current_age when '
-              'the stored Age field is absent or digits and Date parses). Monitor mon_C11 compares Age with its own age computation within 1 s on the real transport.'),
+              'the stored Age field is absent or digits and Date parses), and at history level C11_history (along EVERY sequential history a response returned without contacting the origin is the synthesised 504 or carries '
+              'the status and body of an entry whose fields and instants are those of origin calls of the history (Src, see C01_history), exactly one Age value — the age of that entry at the instant the exchange started —, '
+              'exactly one status value HIT or STALE, and X-From-Cache 1). Monitor mon_C11 compares Age with its own age computation within 1 s on the real transport.'),
         note=COMMON_NOTE + ' int(Duration.Seconds()) is modelled with its IEEE rounding (seconds_trunc); its distance from d/1e9 (at most 1) is checked by the run, not proved.'),
 })
 CLAIMS.update({
